@@ -129,21 +129,23 @@ def history_case(L, first_ops):
             ctx.note("nonempty", bool(census))
             v["dropped-instances-are-reclaimed"] = not leaked_other
             v["dropped-instances-are-reclaimed[an-evaluated-query-returned-them-or-an-instance-that-refers-to-them]"] = not leaked_ranged
-            # what a domain-less variable sees afterwards, and what the registry keeps, for the classes nothing leaked of
-            clean = [t for t in ("T", "Org", "Human", "Other") if not any(w() is not None and issubclass(c, W.CLASSES[t]) for (w, c) in census)]
+            # what a domain-less variable sees afterwards, and what the registry keeps: exactly the instances that are still alive
             try:
-                seen = {t: list(an(entity(let(W.CLASSES[t], None))).evaluate()) for t in clean}
+                seen = {t: list(an(entity(let(W.CLASSES[t], None))).evaluate()) for t in ("T", "Org", "Human", "Other")}
             except Exception as e:
                 v["no-exception"] = False
                 ctx.observe("final query raised %s: %s" % (type(e).__name__, str(e)[:100]))
                 return v
-            v["reclaimed-instances-are-gone-from-domain-less-variables"] = all(len(r) == 0 for r in seen.values())
+            alive_objs = [w() for (w, c) in census if w() is not None]
+            v["reclaimed-instances-are-gone-from-domain-less-variables"] = all(
+                r is not None and any(r is o for o in alive_objs) for res in seen.values() for r in res)
+            del seen, alive_objs
             st = W.graph_state(SymbolGraph())
             n_alive = sum(1 for (w, c) in census if w() is not None)
-            if not alive:
-                v["registry-keeps-nothing-of-reclaimed-instances"] = st["nodes"] == 0 and st["per_class"] == 0 and st["instance_index"] == 0 and st["relation_index"] == 0 and st["edges"] == 0
-                if not v["registry-keeps-nothing-of-reclaimed-instances"]:
-                    ctx.observe(st)
+            v["registry-keeps-nothing-of-reclaimed-instances"] = st["nodes"] == n_alive and st["instance_index"] == n_alive and (
+                n_alive > 0 or (st["per_class"] == 0 and st["relation_index"] == 0 and st["edges"] == 0))
+            if not v["registry-keeps-nothing-of-reclaimed-instances"]:
+                ctx.observe(st, n_alive)
             # krrood's process-wide expression tables after every query object was dropped
             built_queries = any(o[0] in ("declare", "query", "query-explicit", "query-partial") for o in trace)
             # (the final census queries above were built after tables1 was taken)
